@@ -549,7 +549,7 @@ class Observer:
                 if name != "MemoryCopyElisionPass":
                     try:
                         rec["roles"], rec["recheck"] = invoke_roles(self_, fn, before)
-                        annotate(before, after, rec["roles"])
+                        annotate(before, after, rec["roles"], fill=(name == "InternalReturnCopyForwardingPass"))
                     except Exception as e:  # noqa
                         rec["export_error"] = f"{type(e).__name__}: {e}"
                 obs.records.append(rec)
@@ -640,7 +640,7 @@ def invoke_roles(pass_obj, fn, before):
     return roles, recheck
 
 
-def annotate(before, after, roles):
+def annotate(before, after, roles, fill=False):
     """i_ann of every invoke (the same in both snapshots): Some size for an operand at a read-only position whose value is
     staged by exactly one copy in the BEFORE function (size = that copy's size operand), else None"""
     defs = before.defs()
@@ -657,7 +657,7 @@ def annotate(before, after, roles):
         for o, role in zip(ops, rl):
             r = before.root(o, defs)
             cs = copies.get(r, [])
-            ann.append(cs[0] if role == "ro" and len(cs) == 1 else None)
+            ann.append(("lab", 0) if (fill and role == "ret") else (cs[0] if role == "ro" and len(cs) == 1 else None))
         before.ann[key] = ann
         after.ann[key] = ann
 
@@ -777,13 +777,29 @@ def internal_return_check(rec):
     return None
 
 
+def renamed_vars(rec):
+    """variables that hold a pointer into a destination in f and into the return buffer in f': outputs of assign / add
+    with a substituted operand, closed under assign / add"""
+    RN = set()
+    ch = {(bi, j) for bi, j, x, y in (changes(rec) or []) if x[0] == y[0] and x[1] != y[1]}
+    grow = True
+    while grow:
+        grow = False
+        for bi, blk in enumerate(rec["before"].blocks):
+            for j, ins in enumerate(blk):
+                if ins[0] in ("assign", "add") and len(ins[2]) == 1 and ins[2][0] not in RN:
+                    if (bi, j) in ch or any(o[0] == "var" and o[1] in RN for o in ins[1]):
+                        RN.add(ins[2][0])
+                        grow = True
+    return sorted(RN)
+
 def key_of(rec):
     return hashlib.sha1((rec["pass"] + rec["before"].text + "\n=>\n" + rec["after"].text).encode()).hexdigest()[:16]
 
 
-COQ_IMPORTS = "From Verif Require Import C14C.CopySem C14C.CopyCheck C14C.DeadCheck.\nOpen Scope string_scope.\n"
-MODEL_FILES = ["C14C/CopySem.v", "C14C/CopyCheck.v", "C14C/DeadCheck.v"]
-PROOF_FILES = ["C14C/CopySound1.v", "C14C/CopySound2.v", "C14C/CopySound3.v", "C14C/CopySound4.v", "C14C/CopySound.v", "C14C/PropsCopy.v", "C14C/DeadSound.v", "C14C/PropsDead.v"]
+COQ_IMPORTS = "From Verif Require Import C14C.CopySem C14C.CopyCheck C14C.DeadCheck C14C.IRCheck.\nOpen Scope string_scope.\n"
+MODEL_FILES = ["C14C/CopySem.v", "C14C/CopyCheck.v", "C14C/DeadCheck.v", "C14C/IRCheck.v"]
+PROOF_FILES = ["C14C/CopySound1.v", "C14C/CopySound2.v", "C14C/CopySound3.v", "C14C/CopySound4.v", "C14C/CopySound.v", "C14C/PropsCopy.v", "C14C/DeadSound.v", "C14C/PropsDead.v", "C14C/IRSound.v", "C14C/PropsIR.v"]
 
 
 def evaluate(recs, name="c14c", rounds=8):
@@ -792,18 +808,21 @@ def evaluate(recs, name="c14c", rounds=8):
         return []
     exprs = []
     for r in recs:
-        C = certificates(r["before"])
+        C = certificates(r.get("ir_before") or r["before"])
         dead = "1"
         if r.get("dead_step") is not None:   # the second step g -> h: removal of copies into the allocations D
             h, D = r["dead_step"]
             hh = "g" if r.get("dead_only") else f"({h.c_func()})"
             dead = f"(let h := {hh} in if dead_check C [{'; '.join(str(d) for d in D)}] g h then 1 else 0)"
         if r.get("dead_only"):
-            exprs.append(f"(let C := {c_certs(C)} in let g := {r['after'].c_func()} in [1; 1; 1; {dead}])")
+            Pp, RN = r["ir_args"]
+            ir = (f"(if ir_check C [{'; '.join(f'({d}, {rr}, {n})' for d, rr, n in Pp)}] [{'; '.join(f'{x}%N' for x in RN)}] "
+                  f"{r['ir_before'].c_func()} g then 1 else 0)")
+            exprs.append(f"(let C := {c_certs(C)} in let g := {r['after'].c_func()} in [1; 1; 1; {dead}; {ir}])")
             continue
         exprs.append(f"(let C := {c_certs(C)} in let f := {r['before'].c_func()} in let g := {r['after'].c_func()} in "
                      f"let E := infer_entry C f {max(rounds, len(r['before'].blocks) + 1)} in "
-                     f"[if check_func C E f g then 1 else 0; if certs_ok f C then 1 else 0; if check_blocks C E E f g then 1 else 0; {dead}])")
+                     f"[if check_func C E f g then 1 else 0; if certs_ok f C then 1 else 0; if check_blocks C E E f g then 1 else 0; {dead}; 1])")
     # three coqc processes side by side (largest expressions first, dealt round-robin)
     from concurrent.futures import ThreadPoolExecutor
     order = sorted(range(len(exprs)), key=lambda i: -len(exprs[i]))
@@ -942,7 +961,13 @@ def part_copy_passes(ctx):
             defs_ = r["before"].defs()
             D = sorted({r["before"].names["alloca"].get(r["before"].root(x[1][2], defs_)[1], -1) for _, _, x, y in (changes(r) or [])
                         if x[0] == "mcopy" and y[0] == "nop" and r["before"].root(x[1][2], defs_)[0] == "var"})
-            r["pair"] = {"before": r["after"], "after": r["after"], "dead_step": (r["after"], D), "dead_only": True}
+            Pp = []
+            for _, _, x, y in (changes(r) or []):
+                if x[0] == "mcopy" and y[0] == "nop":
+                    rd, rs = r["before"].root(x[1][2], defs_), r["before"].root(x[1][1], defs_)
+                    Pp.append((r["before"].names["alloca"].get(rd[1], -1), r["before"].names["alloca"].get(rs[1], -2), x[1][0][1]))
+            r["pair"] = {"before": r["after"], "after": r["after"], "dead_step": (r["after"], D), "dead_only": True,
+                         "ir_args": (Pp, renamed_vars(r)), "ir_before": r["before"]}
             todo.append(i)
             continue
         if why is None:
@@ -957,8 +982,15 @@ def part_copy_passes(ctx):
                 r = recs[i]
                 ok = o[0] == 1 and o[3] == 1 and not r.get("dead") and not r.get("recheck_bad")
                 if r["pass"] == IR:
-                    ok = o[3] == 1
+                    ok = o[4] == 1
+                    r["why"]["ir_check"] = o[4]
+                    r["why"]["dead_check_f'"] = o[3]
                 verdict[i] = "accepted" if ok else "rejected"
+                if r["pass"] == IR and not ok:
+                    # internal_return_check (Python) accepted: the instance is outside the domain of the proved checker
+                    why = "outside ir_check (chain of forwarded buffers, or a derived pointer used outside the block / before its definition)"
+                    verdict[i] = "unsupported"
+                    stats["unsupported_reasons"][why] = stats["unsupported_reasons"].get(why, 0) + 1
                 if o[0] != 1 and o[3] == 1 and r["pass"] == RO and not r.get("dead") and not r.get("recheck_bad"):
                     # domain limit of the certificates: the source of a staging copy is a phi of pointers into different
                     # allocations (or a multiply defined variable): no region is known for it
@@ -975,8 +1007,8 @@ def part_copy_passes(ctx):
         except RuntimeError as e:
             ctx.violation("correspondence-broken", "check_func could not be evaluated on the exported invocations", {"error": str(e)[-1500:]})
     stats["validated_by"] = {"MemoryCopyElisionPass": "check_func (copyfwd_check_sound)", RO: "check_func rule R4 (copyfwd_check_sound under ro_uniform) + "
-                             "dead_check (dead_copy_sound under oracle_local) + readonly_recheck (syntactic, unverified)", IR: "internal_return_check (syntactic, unverified) + dead_check f' f' on the destination allocations "
-                             "(dead_copy_sound: unobservable in f')"}
+                             "dead_check (dead_copy_sound under oracle_local) + readonly_recheck (syntactic, unverified)", IR: "ir_check (internal_return_sound under oracle_ren, bounded semantics); internal_return_check (Python) "
+                             "as a pre-filter"}
     stats["readonly_facts_rechecked"] = sum(r.get("recheck_used", 0) for r in recs)
     t2 = time.time()
     entries = {c["name"]: c for c in progs}
